@@ -64,7 +64,35 @@ def popDueL : List Ev → Int → Option (Ev × List Ev)
   | [], _ => none
   | e :: r, t => if e.due > t then none else some (e, r)
 
-def impl : QImpl (List Ev) := ⟨[], postL, cancelL, popDueL, fun l p => l.any p, id⟩
+/-- sorted insertion: after every event whose due time is not later, before the first later one -/
+def insL (l : List Ev) (e : Ev) : List Ev :=
+  l.takeWhile (leDue e.due) ++ e :: l.dropWhile (leDue e.due)
+
+/-- `Postpone…` at list level, as the (repaired) code does it: the first match gets a later due time
+    and is moved forward, behind every *following* event whose due time is not later -/
+def postponeL : List Ev → (Ev → Bool) → Int → Nat → List Ev × Option (Ev × Ev)
+  | [], _, _, _ => ([], none)
+  | e :: r, p, d, ord =>
+    if p e then
+      let e' : Ev := { e with due := e.due + d, ord := ord }
+      (insL r e', some (e, e'))
+    else
+      let x := postponeL r p d ord
+      (e :: x.1, x.2)
+
+def popDueOfL : List Ev → Nat → Int → Option (Ev × List Ev)
+  | [], _, _ => none
+  | e :: r, l, t =>
+    if e.due > t then none
+    else if e.lis ≠ l then
+      match popDueOfL r l t with
+      | none => none
+      | some (x, r') => some (x, e :: r')
+    else some (e, r)
+
+def impl : QImpl (List Ev) :=
+  ⟨[], postL, cancelL, popDueL, fun l p => l.any p, id,
+   fun l p d ord => some (postponeL l p d ord), popDueOfL, fun l => cancelL l (fun _ => true), fun _ recs => some recs⟩
 
 end ListQ
 
